@@ -85,10 +85,9 @@ class ColorMap:
             self._values = np.asarray(
                 values, dtype=list(zip(self._names, self._formats, strict=False))
             )
-        self.parent.modified_attributes = "color_map"
-
         if self.parent is not None:
-            self.parent.workspace.update_attribute(self, "color_map")
+            self.parent.modified_attributes = "color_map"
+            self.parent.workspace.update_attribute(self.parent, "color_map")
 
     @property
     def name(self) -> str:
@@ -100,7 +99,9 @@ class ColorMap:
     @name.setter
     def name(self, value: str):
         self._name = str(value)
-        self.parent.modified_attributes = "color_map"
+        if self.parent is not None:
+            self.parent.modified_attributes = "color_map"
+            self.parent.workspace.update_attribute(self.parent, "color_map")
 
     @property
     def parent(self):
